@@ -1602,6 +1602,22 @@ class _Published(object):
     del f
 
 
+class _EqualService(object):
+    """value objects: distinct instances that compare (and hash) equal"""
+    def __init__(self, tag):
+        self.tag = tag
+
+    def __eq__(self, other):
+        return isinstance(other, _EqualService)
+
+    def __hash__(self):
+        return 11
+
+    @modifiers.kwoargs('verbose')
+    def who(self, job=0, verbose=False):
+        return self.tag
+
+
 def _probe_calls(sig, fn, cases):
     out = []
     for args, kwargs in cases:
@@ -1657,6 +1673,10 @@ def _preempt_scenarios():
         'pok_method_kwo': (svc_state, both_calls(lambda st: st['svc'].run), drop_held),
         'pok_method_pos': (svc_state, both_calls(lambda st: st['svc'].pos), drop_held),
         'pok_method_auto': (svc_state, both_calls(lambda st: st['svc'].auto), drop_held),
+        # two distinct but EQUAL instances: each thread calls the method of both; the one it gets must run on the instance asked
+        'pok_equal_instances': (lambda: {'a': _EqualService('a'), 'b': _EqualService('b')},
+                                (lambda st: (st['a'].who(1), str(sigtools.signature(st['a'].who)), gc.collect() and None,
+                                             st['b'].who(1), str(sigtools.signature(st['b'].who)))), None),
         # two stacked descriptors over one function, both published: each thread reads both names on the shared instance
         'pok_published_stack': (lambda: {'o': _Published()},
                                 (lambda st: (both_calls(lambda s_: s_['o'].base)(st), gc.collect() and None,
@@ -1674,7 +1694,7 @@ def _preempt_scenarios():
     return sc
 
 
-PREEMPT_SCENARIOS = ('pok_method_kwo', 'pok_method_pos', 'pok_method_auto', 'pok_published_stack', 'emulated_class_getitem', 'emulated_new', 'as_forged',
+PREEMPT_SCENARIOS = ('pok_method_kwo', 'pok_method_pos', 'pok_method_auto', 'pok_published_stack', 'pok_equal_instances', 'emulated_class_getitem', 'emulated_new', 'as_forged',
                      'decorated_fn', 'wdecorated_fn', 'declared_emulated', 'method_decorated', 'method_pok', 'pok_fn', 'user_forged',
                      'method_fwd', 'instance_signature', 'plain_wrapper', 'method_auto', 'partial', 'declared', 'wrapped_fn',
                      'wrapped_twice')
